@@ -84,6 +84,145 @@ theorem c09_depends_only_on_reference (cells : List (Int × Int)) (insts : List 
     placeOne cells insts done i = placeOne cells insts done' i := by
   simp only [placeOne, hi, hsame]
 
+/-- the location a relation graph assigns to an instance, as a relation: absolute locations are
+    themselves; a relative location is `resolve` applied to the location of the reference. Nothing
+    here mentions an order of processing or of listing. -/
+inductive Placed (cells : List (Int × Int)) (insts : List Inst) : Nat → Int × Int → Prop where
+  | abs (i c : Nat) (x y : Int) (rh rv : Bool) (h : insts[i]? = some ⟨c, .abs x y, rh, rv⟩) : Placed cells insts i (x, y)
+  | rel (i c to : Nat) (side align : Side) (sep : Sep) (rh rv : Bool) (r : Inst) (rx ry sx sy rsx rsy sv : Int)
+      (h : insts[i]? = some ⟨c, .rel to side align sep, rh, rv⟩) (hr : insts[to]? = some r)
+      (hp : Placed cells insts to (rx, ry)) (hc : cells[c]? = some (sx, sy)) (hrc : cells[r.cell]? = some (rsx, rsy))
+      (hs : sepValue cells side.horiz sep = .ok sv) (ha : align.horiz ≠ side.horiz) :
+      Placed cells insts i (resolve (bboxOf rx ry rsx rsy r.rh r.rv) sx sy rh rv side align sv)
+
+theorem Placed_unique (cells : List (Int × Int)) (insts : List Inst) (i : Nat) (p q : Int × Int)
+    (hp : Placed cells insts i p) (hq : Placed cells insts i q) : p = q := by
+  induction hp generalizing q with
+  | abs i c x y rh rv h =>
+    cases hq with
+    | abs _ c' x' y' rh' rv' h' => rw [h] at h'; cases h'; rfl
+    | rel _ c' to' side' align' sep' rh' rv' r' rx' ry' sx' sy' rsx' rsy' sv' h' => rw [h] at h'; cases h'
+  | rel i c to side align sep rh rv r rx ry sx sy rsx rsy sv h hr hp hc hrc hs ha ih =>
+    cases hq with
+    | abs _ c' x' y' rh' rv' h' => rw [h] at h'; cases h'
+    | rel _ c' to' side' align' sep' rh' rv' r' rx' ry' sx' sy' rsx' rsy' sv' h' hr' hp' hc' hrc' hs' ha' =>
+      rw [h] at h'; cases h'
+      rw [hr] at hr'; cases hr'
+      have := ih _ hp'; cases this
+      rw [hc] at hc'; cases hc'
+      rw [hrc] at hrc'; cases hrc'
+      rw [hs] at hs'; cases hs'
+      rfl
+
+
+def AllPlaced (cells : List (Int × Int)) (insts : List Inst) (done : List (Nat × Int × Int)) : Prop :=
+  ∀ d ∈ done, Placed cells insts d.1 (d.2.1, d.2.2)
+
+theorem placeOne_sound (cells : List (Int × Int)) (insts : List Inst) (done : List (Nat × Int × Int)) (i : Nat) (p : Int × Int)
+    (hd : AllPlaced cells insts done) (h : placeOne cells insts done i = .ok p) : Placed cells insts i p := by
+  unfold placeOne at h
+  split at h
+  · cases h
+  · rename_i inst hi
+    obtain ⟨c, loc, rh, rv⟩ := inst
+    cases loc with
+    | abs x y =>
+      simp only [Out.ok.injEq] at h
+      subst h
+      exact Placed.abs i c x y rh rv hi
+    | rel to side align sep =>
+      simp only at h
+      split at h
+      · rename_i r k rx ry sx sy hr hf hc
+        split at h
+        · rename_i rsx rsy sv hrc hs
+          split at h
+          · cases h
+          · rename_i ha
+            simp only [Out.ok.injEq] at h
+            subst h
+            have hmem := List.mem_of_find?_eq_some hf
+            have hkey := List.find?_some hf
+            simp only [beq_iff_eq] at hkey
+            have hp := hd _ hmem
+            simp only at hp hkey
+            subst hkey
+            exact Placed.rel i c k side align sep rh rv r rx ry sx sy rsx rsy sv hi hr hp hc hrc hs ha
+        · cases h
+      · cases h
+
+theorem placeAll_sound (cells : List (Int × Int)) (insts : List Inst) : ∀ (order : List Nat) (done out : List (Nat × Int × Int)),
+    AllPlaced cells insts done → placeAll cells insts order done = .ok out → AllPlaced cells insts out := by
+  intro order
+  induction order with
+  | nil => intro done out hd h; simp [placeAll] at h; subst h; exact hd
+  | cons i rest ih =>
+    intro done out hd h
+    simp only [placeAll] at h
+    cases hp : placeOne cells insts done i with
+    | err => simp [hp] at h
+    | ok p =>
+      obtain ⟨x, y⟩ := p
+      simp only [hp] at h
+      refine ih _ _ ?_ h
+      intro d hdm
+      rcases List.mem_append.1 hdm with h1 | h1
+      · exact hd d h1
+      · simp only [List.mem_singleton] at h1; subst h1
+        exact placeOne_sound cells insts done i (x, y) hd hp
+
+
+/-- **the placement is intrinsic**: every location `place_layout` returns is the one the relation
+    graph assigns (`Placed`) — a statement that mentions no order at all -/
+theorem c09_result_intrinsic (cells : List (Int × Int)) (insts : List Inst) (out : List (Nat × Int × Int))
+    (h : run cells insts = .ok out) : ∀ d ∈ out, Placed cells insts d.1 (d.2.1, d.2.2) := by
+  unfold run at h
+  split at h
+  · exact placeAll_sound cells insts _ [] out (by intro d hd; cases hd) h
+  · cases h
+
+/-- **order independence, processing order**: whatever two orders the instances are resolved in
+    (any two lists for which resolution succeeds — not only the dependency order the code computes),
+    every instance gets the same location -/
+theorem c09_order_indep (cells : List (Int × Int)) (insts : List Inst) (o1 o2 : List Nat) (out1 out2 : List (Nat × Int × Int))
+    (h1 : placeAll cells insts o1 [] = .ok out1) (h2 : placeAll cells insts o2 [] = .ok out2)
+    (i : Nat) (p q : Int × Int) (hp : (i, p) ∈ out1) (hq : (i, q) ∈ out2) : p = q :=
+  Placed_unique cells insts i p q
+    (placeAll_sound cells insts o1 [] out1 (by intro d hd; cases hd) h1 _ hp)
+    (placeAll_sound cells insts o2 [] out2 (by intro d hd; cases hd) h2 _ hq)
+
+/-- an instance with its reference renumbered by `f` -/
+def renameInst (f : Nat → Nat) (inst : Inst) : Inst :=
+  { inst with loc := match inst.loc with
+      | .rel to side align sep => .rel (f to) side align sep
+      | l => l }
+
+/-- the relation graph's answer is carried along any renumbering of the instances -/
+theorem Placed_rename (cells : List (Int × Int)) (insts insts' : List Inst) (f : Nat → Nat)
+    (hmap : ∀ i inst, insts[i]? = some inst → insts'[f i]? = some (renameInst f inst))
+    (i : Nat) (p : Int × Int) (h : Placed cells insts i p) : Placed cells insts' (f i) p := by
+  induction h with
+  | abs i c x y rh rv h => exact Placed.abs (f i) c x y rh rv (by simpa [renameInst] using hmap i _ h)
+  | rel i c to side align sep rh rv r rx ry sx sy rsx rsy sv h hr hp hc hrc hs ha ih =>
+    exact Placed.rel (f i) c (f to) side align sep rh rv (renameInst f r) rx ry sx sy rsx rsy sv
+      (by simpa [renameInst] using hmap i _ h) (hmap to r hr) ih hc (by simpa [renameInst] using hrc) hs ha
+
+/-- **order independence, listing order**: list the same instances in another order (`f` says where
+    each went, references renumbered accordingly); if both layouts are placed, instance `i` of the
+    first and instance `f i` of the second are at the same location -/
+theorem c09_listing_indep (cells : List (Int × Int)) (insts insts' : List Inst) (f : Nat → Nat)
+    (hmap : ∀ i inst, insts[i]? = some inst → insts'[f i]? = some (renameInst f inst))
+    (out out' : List (Nat × Int × Int)) (h : run cells insts = .ok out) (h' : run cells insts' = .ok out')
+    (i : Nat) (p q : Int × Int) (hp : (i, p) ∈ out) (hq : (f i, q) ∈ out') : p = q :=
+  Placed_unique cells insts' (f i) p q
+    (Placed_rename cells insts insts' f hmap i p (c09_result_intrinsic cells insts out h _ hp))
+    (c09_result_intrinsic cells insts' out' h' _ hq)
+
+/-- non-vacuity: two instances listed in both orders -/
+example : run [(4, 2)] [⟨0, .abs 10 20, false, false⟩, ⟨0, .rel 0 .right .bottom .none, false, false⟩] = .ok [(0, 10, 20), (1, 14, 20)] ∧
+    run [(4, 2)] [⟨0, .rel 1 .right .bottom .none, false, false⟩, ⟨0, .abs 10 20, false, false⟩] = .ok [(1, 10, 20), (0, 14, 20)] := by
+  constructor <;> simp [run, Dep.order, Dep.pushAll, Dep.push, adj, placeAll, placeOne, sepValue, resolve, bboxOf, Box.side, Side.horiz, List.range, List.range.loop]
+
 /-! ### arrays -/
 
 theorem c09_array_count (cell count : Nat) (sx sy : Int) : (flattenArr (.leaf cell count sx sy)).length = count := by
